@@ -86,7 +86,7 @@ func c11Rabin(t *rapid.T, ev *evProp, maxN int) {
 		nbyz = rapid.IntRange(1, maxByz).Draw(t, "nbyz")
 	}
 	for _, b := range rapid.Permutation(seqInts(r.n)).Draw(t, "byzperm")[:nbyz] {
-		r.nodes[b].byz = rapid.SampledFrom([]string{"bad-deal-justified", "bad-deal-unjustified", "false-complaint", "absent", "bad-secret-commits", "honest-behaviour"}).Draw(t, fmt.Sprintf("byz%d", b))
+		r.nodes[b].byz = rapid.SampledFrom([]string{"bad-deal-justified", "bad-deal-unjustified", "false-complaint", "absent", "bad-secret-commits", "bad-secret-commits", "honest-behaviour"}).Draw(t, fmt.Sprintf("byz%d", b))
 	}
 	for _, nd := range r.nodes {
 		gen, err := rdkg.NewDistKeyGenerator(r.suite, nd.long, r.pubs, r.th)
@@ -336,7 +336,52 @@ func c11Rabin(t *rapid.T, ev *evProp, maxN int) {
 		dealerCommit[nd.idx] = sc.Commitments[0]
 		if nd.byz == "bad-secret-commits" {
 			sc.Commitments = append([]kyber.Point(nil), sc.Commitments...)
-			sc.Commitments[0] = g.Point().Add(sc.Commitments[0], g.Point().Base())
+			if rapid.Bool().Draw(t, "partialcommits") && r.n >= 3 {
+				// commitments of F' = F + c * prod_{j in S} (x - x_j): consistent with the shares of
+				// the nodes in S (they accept and store them), inconsistent with everybody else's
+				// (they complain).  |S| may exceed t-1 because nobody bounds the number of
+				// coefficients; with >= t accepting nodes the complaint makes them reveal their shares
+				// and everybody reconstructs the polynomial that was really dealt.
+				var others []int
+				for k := 0; k < r.n; k++ {
+					if k != nd.idx {
+						others = append(others, k)
+					}
+				}
+				others = permuted(t, "partialS", others)
+				// mostly large S (>= t accepting nodes make the reconstruction possible), sometimes small
+				sz := len(others) - 1
+				if rapid.IntRange(0, 3).Draw(t, "partialSmall") == 0 {
+					sz = rapid.IntRange(1, len(others)-1).Draw(t, "partialSize")
+				}
+				S := others[:sz]
+				prod := []kyber.Scalar{g.Scalar().Pick(xofStream(genSeed(t, "partialc")))} // c
+				for _, j := range S {
+					xj := g.Scalar().SetInt64(int64(j + 1))
+					next := make([]kyber.Scalar, len(prod)+1)
+					for k := range next {
+						next[k] = g.Scalar().Zero()
+					}
+					for k, ck := range prod { // (sum ck x^k)(x - xj)
+						next[k+1] = g.Scalar().Add(next[k+1], ck)
+						next[k] = g.Scalar().Sub(next[k], g.Scalar().Mul(ck, xj))
+					}
+					prod = next
+				}
+				for k, ck := range prod {
+					for len(sc.Commitments) <= k {
+						sc.Commitments = append(sc.Commitments, g.Point().Null())
+					}
+					sc.Commitments[k] = g.Point().Add(sc.Commitments[k], g.Point().Mul(ck, nil))
+				}
+				r.log("%s publishes secret commits that match only the shares of %v (%d coefficients, t=%d)", nd.name, S, len(sc.Commitments), r.th)
+				r.stats["partial-secret-commits"] = true
+				if len(S) >= int(r.th) {
+					r.stats["partial-secret-commits-reconstructable"] = true
+				}
+			} else {
+				sc.Commitments[0] = g.Point().Add(sc.Commitments[0], g.Point().Base())
+			}
 			sc.Signature, _ = schnorrSign(r.suite, nd.long, sc.Hash(r.suite))
 			r.stats["bad-secret-commits"] = true
 		}
@@ -397,9 +442,13 @@ func c11Rabin(t *rapid.T, ev *evProp, maxN int) {
 		if r.absent[to.idx] {
 			continue
 		}
-		if pn := safely(func() { _ = to.gen.ProcessReconstructCommits(m.rc) }); pn != "" {
+		var rerr error
+		if pn := safely(func() { rerr = to.gen.ProcessReconstructCommits(m.rc) }); pn != "" {
 			r.fail("processreconstructcommits-panic", "%s panicked: %s", to.name, pn)
 			return
+		}
+		if rerr == nil {
+			r.stats["reconstruct-commits-accepted"] = true
 		}
 	}
 	// ---- outputs
